@@ -289,7 +289,15 @@ def run_one(scn, ops, lines, trace, tags):
             if sim.aborted():
                 break
 
-    sim.run(build, drive)
+    try:
+        sim.run(build, drive)
+    except (TypeError, ValueError) as err:
+        if 'fsm' in holder:
+            raise
+        # the class was built, but the block constructor refused its arguments (e.g. a cond_EVENT keyword for
+        # an event of the table): an outcome of the implementation, not of the harness
+        trace.append(f'err ctor-{type(err).__name__}')
+        return 'ctor-error: ' + str(err)[:200]
     if sim.init_error is not None:
         f = holder['fsm']
         if f._c03_init_exc is not None:
@@ -322,6 +330,9 @@ def run_impl(scn):
         if steps is None:
             return {'lines': lines, 'trace': trace, 'runs': [], 'build_error': 'ValueError',
                     'tags': tags + ['build=ValueError'], 'nontrivial': False}
+        if isinstance(steps, str):
+            return {'lines': lines, 'trace': trace, 'runs': [], 'ctor_error': steps,
+                    'tags': tags + ['ctor-error'], 'nontrivial': False}
         runs.append(steps)
     accepted = sum(1 for steps in runs for s in steps[1:] if s['res'] == 'ret b1')
     return {'lines': lines, 'trace': trace, 'runs': runs, 'tags': tags, 'nontrivial': accepted > 0}
@@ -477,6 +488,9 @@ def oracle(scn, res):
         return out
     if table_defect(scn):
         return [{'clause': 'build_tables', 'what': f'defective tables accepted: {table_defect(scn)}'}]
+    if res.get('ctor_error'):
+        return [{'clause': 'build_tables',
+                 'what': f"a valid FSM definition was refused by the block constructor: {res['ctor_error']}"}]
     for nrun, steps in enumerate(res['runs']):
         out = oracle_run(scn, steps)
         if out:
